@@ -107,6 +107,15 @@ SPECS = {
         search=False,
         explanation="registered predicates x 26 argument shapes (all for arity 1, pairs for arity 2, samples above) and byte strings (all up to length 2 over 31 symbols, samples and all of length 3 in the thorough tier, truncations and mutations of valid texts) as query and program text; outcome of every task classified: answers / failure / ISO error / rejected text / budget / panic residue / non-ISO error / process aborted / wedged",
     ),
+    "C06": dict(
+        level="proof", props_deps=["Proofs/Canon.v"], model_deps=["Model/Canon.v"],
+        trusted=COMMON_TRUSTED + ["PARTIAL: hand-written Model/Canon.v (tokens, canonical printer, recursive-descent reader) covers plain atoms, integers and compounds in functional notation; the printer's text is compared with write_canonical/1, the model's reader is not compared with the implementation's",
+                                  "operators of every specifier and priority, user operator tables, quoting and escapes, floats, variables, lists, curly terms, double_quotes: decided by round trips on the implementation over generated terms (terms are built with atom_codes/2, =../2 and Go floats, not through the reader); that part is testing, not proof"],
+        assumptions=["'$VAR'(N) terms are not generated (numbervars output is not re-readable by definition)",
+                     "the comparison is structural on the terms read back through Solutions.Scan, floats by their bits, variables up to renaming"],
+        search=False,
+        explanation="generated terms x operator tables after random op/3 sequences x double_quotes, written by writeq / write_canonical / write_term(quoted) with and without ignore_ops, read back by read_term and compared; number_codes and number_chars on 64-bit integers and finite floats; canonical-fragment terms also compared with the model's printer",
+    ),
     "C12": dict(
         level="proof", props_deps=["Proofs/Solutions.v"], model_deps=["Model/SolutionsCheck.v"],
         trusted=COMMON_TRUSTED + ["hand-written handshake model Model/Solutions.v under run-to-block semantics; Go channels, scheduler and memory model are not modelled"],
